@@ -76,6 +76,24 @@ def spec_call(e: Engine, name: str, n: ast.Call, st: State) -> Optional[SV]:
             e.lambda_env.pop()
         q = z3.ForAll if name.startswith("forall") else z3.Exists
         return SV(BOOL, q(vars_, body))
+    if name == "use_lemma":
+        lname = n.args[0].value
+        lem = next((l for l in e.reg.lemmas if l["name"] == lname), None)
+        if lem is None:
+            raise Unsupported(f"unknown lemma {lname}")
+        args = [e.ev(a, st) for a in n.args[1:]]
+        env = {}
+        for pdecl, a in zip(lem["params"], args):
+            pn, pt = pdecl.split(":")
+            env[pn] = a
+        e.lambda_env.append(env)
+        try:
+            inst = e.truthy(st, e.ev(ast.parse(lem["statement"].strip(), mode="eval").body, st))
+        finally:
+            e.lambda_env.pop()
+        e.__dict__.setdefault("lemmas_used", set()).add(lname)
+        st.assume(inst)
+        return SV(BOOL, TRUE)
     if name == "is_none":
         v = e.ev(n.args[0], st)
         return SV(BOOL, v.none)
